@@ -7,6 +7,7 @@ Property theorems only. Model: `Compress.Meta.Codec`; lemmas:
 import Compress.Meta.Codec
 import Compress.Proofs.Meta
 import Compress.Proofs.MetaLocate
+import Compress.Proofs.MetaSilent
 
 namespace Compress.Props.C16
 open Compress Compress.Meta
@@ -66,6 +67,19 @@ theorem C16_reverseSearch_finds_last_block (pre buf : List UInt8) (final : Final
     (h : encodeBlock buf final = some bits) :
     reverseSearch (pre ++ Bits.toBytes bits) = (pre.length : Int) :=
   Compress.Proofs.MetaLocate.reverseSearch_finds_last_block pre buf final bits h
+
+/-- M2: to an RFC 1951 decoder (`Compress.Flate.Spec`) a meta block, wherever it
+    stands in a stream, is one complete dynamic block with an empty body: no
+    output, exactly the block consumed, and the stream ends there iff the block
+    was written with `FinalStream`. -/
+theorem C16_silent_in_deflate (buf : List UInt8) (final : FinalMode) (bits : Bits)
+    (h : encodeBlock buf final = some bits)
+    (total fuel : Nat) (out : Array UInt8) (rest : Bits) :
+    Compress.Flate.decodeBlocks total (fuel + 1) out (bits ++ rest) =
+      if final = .fstream then
+        { out := out, verdict := .ok (total - rest.length + Compress.Flate.padTo8 (total - rest.length)) }
+      else Compress.Flate.decodeBlocks total fuel out rest :=
+  Compress.Proofs.MetaSilent.meta_block_silent buf final bits h total fuel out rest
 
 -- non-vacuity: a footer payload really is encodable, as a single block, and decodes back
 example : (encode [0x58, 0x46, 0x00, 0x0a] .fstream).isSome = true := by decide
